@@ -680,3 +680,84 @@ def r1_7(run):
 
 
 RULES = [("R1.1", r1_1), ("R1.2", r1_2), ("R1.3", r1_3), ("R1.4", r1_4), ("R1.5", r1_5), ("R1.6", r1_6), ("R1.7", r1_7)]
+
+
+def _pit_rooted(t, pit_params):
+    """is the array term (a window / column of) one of the pits?"""
+    while isinstance(t, tuple) and t:
+        if t[0] == "upd":
+            t = t[1]
+        elif t[0] == "n":
+            return t[1] in pit_params
+        elif t[0] == "idx":
+            if len(t[2]) == 1 and t[2][0][0] == "c" and t[2][0][1] in ("node", "branch") and t[1][0] == "idx" \
+                    and t[1][2] and t[1][2][0][0] == "c" and str(t[1][2][0][1]).endswith("_pit"):
+                return True
+            if not all(_basic_index(i) for i in t[2]):
+                return False         # already a copy
+            t = t[1]
+        else:
+            return False
+    return False
+
+
+def _basic_index(i):
+    return i[0] in ("slice", "c", "k", "loop") or i == ("slice", ("c", None), ("c", None), ("c", None))
+
+
+def lost_update_sites(ix):
+    """[(function, store event, copied read, updated copy used afterwards?)]: subscript stores whose target array is the result of
+    advanced indexing (index array / boolean mask -- numpy hands out a copy) of a pit"""
+    from ..arrnf import ANF, base_of, key as tkey, walk
+    mods = [m for m in ix.all_modules() if m == "pandapipes.pipeflow" or m.startswith(("pandapipes.pf.", "pandapipes.component_models."))]
+    sites, nf = [], 0
+    for f in ix.all_functions():
+        if f.module not in mods:
+            continue
+        try:
+            r = ANF(ix, f, strip=False).run()
+        except AnalysisError:
+            continue
+        nf += 1
+        pit_params = {a.arg for a in f.node.args.args if a.arg.endswith("_pit") or a.arg in ("pit", "node_pit_old", "branch_pit_old")}
+        evs = list(r.events)
+        for k, e in enumerate(evs):
+            if e.kind != "store":
+                continue
+            b0 = base_of(e.base)
+            if not (isinstance(b0, tuple) and b0 and b0[0] == "idx" and not all(_basic_index(i) for i in b0[2])
+                    and _pit_rooted(b0[1], pit_params)):
+                continue
+            kb = tkey(b0)
+            used = False
+            for e2 in evs[k + 1:]:
+                for t in (getattr(e2, "term", None), getattr(e2, "value", None), getattr(e2, "base", None)) + tuple(getattr(e2, "index", None) or ()):
+                    if not isinstance(t, tuple):
+                        continue
+                    if e2.kind == "store" and t is getattr(e2, "base", None) and tkey(base_of(t)) == kb:
+                        continue        # a further store into the same copy is not a use
+                    if any(isinstance(x, tuple) and x and x[0] == "upd" and tkey(base_of(x)) == kb for x in walk(t)):
+                        used = True
+            sites.append((f, e, b0, used))
+    return sites, nf
+
+
+def r1_9(run):
+    """the balance is kept in the pit columns (MDOTSLACKINIT, LOAD, MDOTINIT ...), which every stage updates in place.  `pit[rows]`
+    with an index array or a mask is a *copy*: a store into it changes nothing in the pit, so a correction written that way (zeroing
+    the slack flow of junctions that are no mass slack, say) is silently lost.  Every subscript store whose target is such a copy of
+    a pit must feed a later read (stored back, returned or passed on)."""
+    from ..arrnf import show as tshow
+    ix = run.index
+    sites, nf = lost_update_sites(ix)
+    for f, e, b0, used in sites:
+        run.analysed(f)
+        run.ob("%s|%s|store-into-copy-is-used" % (f.short, tshow(b0)[:40]), used,
+               "the store goes into a copy of pit rows (advanced indexing); the updated copy is read afterwards", run.where(f, e.node))
+    run.stat("functions_scanned_for_stores_into_pit_copies", nf)
+    run.stat("stores_into_pit_copies", len(sites))
+    run.ob("functions-scanned", nf >= 250, "functions of pipeflow.py, pf/ and component_models/ put into normal form: %d" % nf, "src/pandapipes")
+    run.floor(1)
+
+
+RULES.append(("R1.9", r1_9))
